@@ -145,7 +145,9 @@ def _tokenize_line(command):
         tokens = [token.strip() for token in tokens]
     # for classically controlled gates
     elif re.match(r"\s*if\s*\(", command):
-        groups = re.match(r"\s*if\s*\((.*)\)\s*(.*)\s+\((.*)\)(.*)", command)
+        groups = re.match(
+            r"\s*if\s*\((.*?)\)\s*(.*?)\s+\((.*)\)(.*)", command
+        )
         # for classically controlled gates with arguments
         if groups:
             tokens = ["if", "(", groups.group(1), ")"]
